@@ -108,7 +108,7 @@ func genC17(t *rapid.T) c17Plan {
 	// "cap0" is the edge configuration in which every put runs a pruning pass.
 	// "nearbig": the nearest item alone is more than 95% of the capacity and the few farther ones less than 5%,
 	// so the pass that the crossing put triggers has to drop everything the store holds.
-	mode := rapid.SampledFrom([]string{"small", "bigfirst", "bigfirst", "quantum", "quantum", "cap0", "nearbig", "nearbig"}).Draw(t, "mode")
+	mode := rapid.SampledFrom([]string{"small", "bigfirst", "bigfirst", "quantum", "quantum", "cap0", "nearbig", "nearbig", "exact95", "exact95"}).Draw(t, "mode")
 	p.CapMB, p.Shape = 1, mode
 	lo, hi := 1, 15
 	switch mode {
@@ -119,6 +119,20 @@ func genC17(t *rapid.T) c17Plan {
 		p.Ops = append(p.Ops, histOp{Op: "put", ID: idRef{Kind: "dist", Dist: genDist(t)}, Len: rapid.IntRange(880_000, 960_000).Draw(t, "first"), Seed: rapid.Uint32().Draw(t, "seed")})
 	case "quantum":
 		lo, hi = 27, 40
+	case "exact95":
+		// the usage is exactly 95% of the capacity when the store is reopened (nine items of 100 000 bytes and one of
+		// 50 000, keys included, and no pass so far): "more than 95% full" is false, the radius is the maximum
+		lo, hi = 0, 0
+		for i := 0; i < 10; i++ {
+			l := 100_000 - 32
+			if i == 9 {
+				l = 50_000 - 32
+			}
+			d := make([]byte, 32)
+			d[0], d[31] = rapid.ByteRange(1, 0xfe).Draw(t, "e95hi"), byte(i)
+			p.Ops = append(p.Ops, histOp{Op: "put", ID: idRef{Kind: "dist", Dist: d}, Len: l, Seed: rapid.Uint32().Draw(t, "seed")})
+		}
+		p.Ops = append(p.Ops, histOp{Op: "reopen"})
 	case "nearbig":
 		lo, hi = 0, 4
 		near := make([]byte, 32)
@@ -346,10 +360,12 @@ func (run *c17Run) checkImage(spec imageSpec, cache *pebble.Cache) (res imageRes
 	for _, m := range []uint64{pre.Rec, post.Rec, pre.Held, post.Held} {
 		x := new(big.Int).Mul(new(big.Int).SetUint64(m), big.NewInt(100))
 		d := new(big.Int).Sub(x, lim)
+		// (whole bytes: for the capacities used here 95% of the capacity is a whole number of bytes and the code's
+		// floating-point threshold is exact, so "exactly 95%" is not "more than 95%")
 		switch {
-		case d.Cmp(big.NewInt(100)) > 0:
+		case d.Sign() > 0:
 			above++
-		case d.Cmp(big.NewInt(-100)) < 0:
+		default:
 			below++
 		}
 	}
